@@ -138,8 +138,9 @@ Definition final_reading (l : limiter) (s : st) (t : tick) : Z :=
 
 (* ---- Start / Shutdown reference counting ----------------------------------------------------
    refCounter; goroutine = the monitoring goroutine exists (between go func() and its return,
-   which Shutdown waits for); ticker_live = ml.ticker has not been Stop()ped.  The ticker is
-   created once in NewMemoryLimiter and never re-created or Reset. *)
+   which Shutdown waits for); ticker_live = ml.ticker is armed.  The ticker is created (armed) once
+   in NewMemoryLimiter, stopped by the last Shutdown and armed again — ticker.Reset(memCheckWait) —
+   by the Start that takes the count from 0 to 1 (fix 90db205a4: the limiter is restartable). *)
 Record life := mkLife { refcnt : Z; goroutine : bool; ticker_live : bool }.
 Definition life0 : life := mkLife 0 false true.
 
@@ -150,7 +151,7 @@ Definition life_step (s : life) (o : lop) : life * bool :=
   match o with
   | LStart =>
       let rc := refcnt s + 1 in
-      if rc =? 1 then (mkLife rc true (ticker_live s), false)
+      if rc =? 1 then (mkLife rc true true, false)
       else (mkLife rc (goroutine s) (ticker_live s), false)
   | LShutdown =>
       if refcnt s =? 0 then (s, true)
@@ -233,4 +234,64 @@ Fixpoint forwarded_of (bs : list gobs) : list (nat * Z) :=
   | [] => []
   | OConsumed _ fw :: bs' => fw ++ forwarded_of bs'
   | _ :: bs' => forwarded_of bs'
+  end.
+
+(* ---- factory.getMemoryLimiter (processor/memorylimiterprocessor/factory.go) --------------------
+   memoryLimiters map[component.Config]*memoryLimiterProcessor: the key is the interface value
+   holding the *Config pointer, i.e. the IDENTITY of the config object (here a nat); the value is
+   identified by its creation index.  [ok] = newMemoryLimiterProcessor would succeed at this call
+   (it is only evaluated on a miss; a failure is returned and nothing is cached). *)
+Definition factory := list (nat * nat).
+
+Fixpoint f_lookup (k : nat) (f : factory) : option nat :=
+  match f with
+  | [] => None
+  | (k', id) :: r => if Nat.eqb k k' then Some id else f_lookup k r
+  end.
+
+Definition get_memory_limiter (f : factory) (k : nat) (ok : bool) : factory * option nat :=
+  match f_lookup k f with
+  | Some id => (f, Some id)
+  | None => if ok then (f ++ [(k, List.length f)], Some (List.length f)) else (f, None)
+  end.
+
+(* a sequence of create{Traces,Metrics,Logs,Profiles} calls: which limiter each one got *)
+Fixpoint factory_run (f : factory) (calls : list (nat * bool)) : factory * list (option nat) :=
+  match calls with
+  | [] => (f, [])
+  | (k, ok) :: r => let '(f1, res) := get_memory_limiter f k ok in
+                    let '(f2, rs) := factory_run f1 r in (f2, res :: rs)
+  end.
+
+(* ---- the whole limiter: lifetime and periodic checks together ----------------------------------
+   Start's goroutine:  for { select { case <-ml.ticker.C: case <-ml.closed: return }; ml.CheckMemLimits() }
+   A tick is delivered — and a check runs — only while that goroutine exists and the ticker
+   (stopped by the last Shutdown, re-armed by the next first Start) is live; otherwise nothing
+   happens to mustRefuse / lastGCDone.  SQuery = MustRefuse() by any user. *)
+Inductive sop := SStart | SShutdown | STick (t : tick) | SQuery.
+Record sys := mkSys { s_life : life; s_st : st }.
+Inductive sobs :=
+| SLifeRes (err : bool)
+| STicked (must_refuse : bool) (gcs : nat)
+| SNoTick
+| SQueried (must_refuse : bool).
+
+Definition sys0 (t0 : Z) : sys := mkSys life0 (st0 t0).
+
+Definition sys_step (l : limiter) (s : sys) (o : sop) : sys * sobs :=
+  match o with
+  | SStart => let '(lf, e) := life_step (s_life s) LStart in (mkSys lf (s_st s), SLifeRes e)
+  | SShutdown => let '(lf, e) := life_step (s_life s) LShutdown in (mkSys lf (s_st s), SLifeRes e)
+  | STick t =>
+      if checking (s_life s)
+      then let '(s1, ev) := check l (s_st s) t in (mkSys (s_life s) s1, STicked (refuse s1) (gc_count ev))
+      else (s, SNoTick)
+  | SQuery => (s, SQueried (refuse (s_st s)))
+  end.
+
+Fixpoint sys_run (l : limiter) (s : sys) (os : list sop) : sys * list sobs :=
+  match os with
+  | [] => (s, [])
+  | o :: os' => let '(s1, b) := sys_step l s o in
+                let '(s2, bs) := sys_run l s1 os' in (s2, b :: bs)
   end.
